@@ -179,6 +179,19 @@ impl Cfg {
                 ParserNode::Directive(x) if x.dir == DirectiveType::TextSection => {
                     segment = Segment::Text;
                 }
+                // Data takes the labels in front of it: they name the data,
+                // not the next instruction
+                ParserNode::Directive(x)
+                    if matches!(
+                        x.dir,
+                        DirectiveType::Data(..)
+                            | DirectiveType::Ascii { .. }
+                            | DirectiveType::Space(_)
+                    ) =>
+                {
+                    current_labels.clear();
+                    current_label_order.clear();
+                }
                 // Ignore other types of directives
                 ParserNode::Directive(_) => {}
                 _ => {
